@@ -37,6 +37,19 @@ Definition WellFormed (s : list N) : Prop :=
   exists data npad, s = data ++ repeat rfc_pad npad /\ (npad <= 2)%nat /\
                     Forall (fun c => in_alphabet c = true) data.
 
+(* the same, as a decision procedure (Base64Proofs.wfb_iff: wfb s = true <-> WellFormed s) *)
+Fixpoint wfb (s : list N) : bool :=
+  match s with
+  | [] => true
+  | a :: b :: c :: d :: r =>
+    match r with
+    | [] => in_alphabet a && in_alphabet b &&
+            ((in_alphabet c && (in_alphabet d || (d =? rfc_pad))) || ((c =? rfc_pad) && (d =? rfc_pad)))
+    | _ => in_alphabet a && in_alphabet b && in_alphabet c && in_alphabet d && wfb r
+    end
+  | _ => false
+  end.
+
 (* What well-formed text denotes: the 6-bit values of its symbols concatenated, read as octets; the (2 or 4) bits
    left over after the last complete octet are dropped whatever their value (RFC 4648 §3.5 lets a decoder choose;
    see Canonical below). *)
